@@ -5,6 +5,7 @@ import ChythonModel.Proofs.C03TokParen
 import ChythonModel.Proofs.C03SpecRing
 import ChythonModel.Proofs.C03Mapping
 import ChythonModel.Proofs.C03Lexer
+import ChythonModel.Proofs.C03Strings
 /-!
 # C03 — SMILES reader builds exactly the molecule the text denotes, rejects the rest
 
@@ -147,6 +148,30 @@ example : (denoteR aromB (·.2)
     (⟨((false, { element := [67] }), [⟨.order 2, 1⟩]),
       .next .implicit ((false, { element := [67] }), [])
         (.next .implicit ((false, { element := [67] }), [⟨.order 1, 1⟩]) .done)⟩ : Chain B)).isNone = true := rfl
+
+/-- **From the characters to the graph** (organic subset, ring closures included): take any syntax tree whose atoms are
+    spelled `B C N O P S F I Cl Br b c n o p s`, whose links are nothing / a bond symbol / a direction mark / a dot,
+    whose ring bonds are an optional bond symbol plus a number 1…99 (`d`, `%dd`), with arbitrary branching. If the spec
+    assigns it a graph `g`, then `smiles_tokenize` of the *text* succeeds and `parser` applied to the result returns
+    exactly `g` (atoms in writing order, aromatic/aliphatic types, chain and ring bonds with their orders). This is
+    the composition of `lexer_roundtrip` and `accept_sound_rings`; it is a statement about strings. -/
+theorem reader_sound_strings (c : SChain) (h : c.wf) (g : Graph B) (hd : denoteR aromB (·.2) c.toChain = some g) :
+    ∃ toks st, smilesTokenize c.text = .ok toks ∧ parse false toks = .ok st ∧
+      st.atoms = g.atoms.map (fun b => strip b.1) ∧ st.types = g.atoms.map (fun b => tyOf b.1) ∧
+      st.bonds = g.bonds := text_to_graph c h g hd
+
+/-- non-trivial instance, benzoyl chloride `ClC(=O)c1ccccc1`: the text, well-formedness and the denoted bonds -/
+def benzoylChloride : SChain :=
+  ⟨.cCl, [], .next .implicit .cC []
+    (.side (.bond 61) (.org 79) [] .done
+      (.next .implicit (.aro 99) [⟨.none, 1⟩] (.next .implicit (.aro 99) [] (.next .implicit (.aro 99) []
+        (.next .implicit (.aro 99) [] (.next .implicit (.aro 99) [] (.next .implicit (.aro 99) [⟨.none, 1⟩] .done)))))))⟩
+
+example : benzoylChloride.text = [67, 108, 67, 40, 61, 79, 41, 99, 49, 99, 99, 99, 99, 99, 49] := rfl
+example : (denoteR aromB (·.2) benzoylChloride.toChain).map (·.bonds) =
+    some [(1, 0, 1), (2, 1, 2), (3, 1, 1), (4, 3, 4), (5, 4, 4), (6, 5, 4), (7, 6, 4), (8, 7, 4), (8, 3, 4)] := rfl
+example : benzoylChloride.wf := by
+  simp [SChain.wf, KS.wf, SAtom.wf, SLink.wf, SRing.wf, benzoylChloride, bondChars, organicChars, aromaticChars]
 
 /-- Full statement of the accept/reject clause on the token level (no ring-closure tokens): the parser accepts a
     token sequence **iff** it is the printing of a syntax tree (and then builds its denotation). False as it stands:
